@@ -1008,7 +1008,77 @@ def check_C14(chk):
                         'XML documents come from a generator over 20 items, not from mutations of the repository`s XHTML examples']
 
 
-CHECKS = {'C14': check_C14, 'C16': check_C16, 'C20': check_C20, 'C07': check_C07, 'C13': check_C13, 'C12': check_C12, 'C17': check_C17, 'C18': check_C18, 'C15': check_C15, 'C09': check_C09, 'C08': check_C08, 'C11': check_C11, 'C10': check_C10, 'C01': check_C01, 'C02': check_C02, 'C03': check_C03}
+def check_C04(chk):
+    q = chk.tier == 'quick'
+    n = 100000 if q else 500000
+    stack = 2 << 20
+    slack = 65536
+    chk.rule = ('mechanism: TLC explores the trampoline state machine (JaqTramp: Stack::next / def_run, a thrown tail call is an item, an iterator is pushed back only if it may have more) '
+                'for the loop shapes `step | f`, `., (step | f)`, `c // (step | f)` and 0..6 iterations: the stack of suspended iterators never exceeds two (a control with the decision taken '
+                'before the item must violate it). programs: TLC enumerates 10 nest kinds (self, parent, grandparent, earlier sibling, uncle, self-and-parent in turn, variable argument, variable '
+                'argument via parent, filter argument, filter argument used) x 9 tail positions (| , with and without output, //, as, else, after a local def, foreach projection, elif), 27 wrapped '
+                'under first / limit / label, 19 built-in loops for values and for paths, and 10 controls with the call in a non-tail position; it checks that the syntactic predicate '
+                f'AllRecCallsTail accepts exactly the non-controls and computes the stream for $n = 3. The harness checks that stream, then runs every program at $n = {n} and {2 * n} in a thread '
+                f'with a {stack >> 20} MiB stack under a counting allocator: it must complete, and peak live heap may grow by at most {slack} bytes from N to 2N. Controls must overflow or grow.')
+    for disc, must_hold in (('after', True), ('before', False)):
+        res = vlib.run_tlc('MC_Tramp', f'SPECIFICATION Spec\nCONSTANTS\n  MaxN = 6\n  Discipline = "{disc}"\nINVARIANTS StackBounded AllProduced\nCHECK_DEADLOCK FALSE\n', f'C04-tramp-{disc}', workers=4)
+        if must_hold:
+            chk.add_tlc(res)
+            for inv in res['invariant_violated']:
+                chk.violation(f'spec:tramp:{inv}', f'TLC: invariant {inv} of JaqTramp violated (see {res["out"]})', {'tlc_out': res['out']})
+        elif 'StackBounded' not in res['invariant_violated']:
+            raise ToolError('the control discipline of JaqTramp does not violate StackBounded: the invariant is vacuous')
+    os.environ['HARNESS_TIMEOUT'] = '600'
+    tot = {'programs': 0, 'completed': 0, 'controls': 0, 'controls_failing': 0}
+    vlib.build_harness()
+    for suite in ('user', 'wrap', 'builtin', 'control'):
+        res = vlib.run_tlc('MC_Tail', f'SPECIFICATION Spec\nCONSTANTS\n  Suite = "{suite}"\nINVARIANTS PredicateAgrees ControlsAreNotTail Specified\nCHECK_DEADLOCK FALSE\n', f'C04-{suite}', workers=8)
+        chk.add_tlc(res)
+        for inv in res['invariant_violated']:
+            chk.violation(f'spec:tail:{suite}:{inv}', f'TLC: invariant {inv} of MC_Tail violated in suite {suite} (see {res["out"]})', {'tlc_out': res['out']})
+        vec = os.path.join(W, f'vec-C04-{suite}.ndjson')
+        nv = vlib.write_vectors(vlib.tagged_lines(res['out'], 'VEC'), vec, f'{suite}-', extra={'mode': 'tailrec', 'n': n, 'stack': stack})
+        if nv == 0:
+            raise ToolError(f'no programs from MC_Tail/{suite}')
+        out = os.path.join(W, f'res-C04-{suite}.ndjson')
+        vlib.replay(vec, out, jobs=8)
+        vecs = {json.loads(l)['id']: json.loads(l) for l in open(vec)}
+        for l in open(out):
+            r = json.loads(l)
+            v = vecs.get(r.get('id'), r.get('vec', {}))
+            name, text = v.get('name', '?'), r.get('text', '')
+            tot['programs'] += 1
+            chk.evaluations += 3
+            chk.traces += 1
+            chk.nontrivial.add(name)
+            failed = None
+            if not r.get('ok'):
+                failed = ('crash' if r.get('crash') else 'result', f"{r.get('why', '')[:200]}")
+            else:
+                m = r['m']
+                grow = m[1]['peak'] - m[0]['peak']
+                if v.get('heap') and grow > slack:
+                    failed = ('heap', f"peak live heap {m[0]['peak']} bytes at $n = {m[0]['n']}, {m[1]['peak']} at $n = {m[1]['n']} (+{grow})")
+                if tot['programs'] % 17 == 3:
+                    chk.sample({'name': name, 'program': text, 'measured': m})
+            if v.get('positive'):
+                if failed:
+                    chk.violation(f'tail:{name}:{failed[0]}', f'{name}: `{text}` with $n = {n}, {2 * n} on a {stack >> 20} MiB stack: {failed[1]}', {'vec': v, 'result': {k: r[k] for k in r if k != "vec"}})
+                else:
+                    tot['completed'] += 1
+            else:
+                tot['controls'] += 1
+                tot['controls_failing'] += 1 if failed else 0
+    chk.extra['totals'] = tot
+    if tot['controls_failing'] < tot['controls']:
+        raise ToolError(f"only {tot['controls_failing']} of {tot['controls']} non-tail controls overflow or grow: the measurement does not discriminate")
+    chk.assumptions += ['the decision on the real code is a measurement (fixed small stack, counting allocator) on the TLC-enumerated programs; the trampoline model assumes exact knowledge of exhaustion '
+                        'where the real iterator adapters report it through size_hint',
+                        'the call classification of compile.rs (Inline / Throw / CatchOne / CatchAll) is not modelled; its effect is what the measurement observes',
+                        'programs whose input grows with $n (`..` over an array of $n elements) are checked for stack only']
+
+
+CHECKS = {'C04': check_C04, 'C14': check_C14, 'C16': check_C16, 'C20': check_C20, 'C07': check_C07, 'C13': check_C13, 'C12': check_C12, 'C17': check_C17, 'C18': check_C18, 'C15': check_C15, 'C09': check_C09, 'C08': check_C08, 'C11': check_C11, 'C10': check_C10, 'C01': check_C01, 'C02': check_C02, 'C03': check_C03}
 
 
 def main():
